@@ -134,6 +134,13 @@ Definition op_ok (o : op) (pre : gview) (e : err) (post : gview) : bool :=
   | DelRel f ty t =>
       bool_decide (e = EOk) &&
       gview_eqb post (GView V (filter (fun r => r <> Rel f ty t) E))
+  | DelMany xs =>
+      bool_decide (e = EOk) &&
+      gview_eqb post (GView (filter (fun i => i ∉ xs) V)
+                            (filter (fun r => r_from r ∉ xs /\ r_to r ∉ xs) E))
+  | DefManyRes xs =>
+      if forallb id_valid xs then bool_decide (e = EOk) && gview_eqb post (GView (xs ++ V) E)
+      else rels_eqb (g_E post) E
   | _ => true
   end.
 
